@@ -13,6 +13,8 @@ pub mod c02;
 pub mod c03;
 pub mod c04;
 pub mod c06;
+pub mod c07;
+pub mod c13;
 pub mod c11;
 pub mod c19;
 pub mod corpus;
@@ -57,6 +59,8 @@ fn main() {
                 "c03" => if replay { c03::replay(&a2, &mut rep) } else { c03::run(&a2, &mut rep) },
                 "c04" => if replay { c04::replay(&a2, &mut rep) } else { c04::run(&a2, &mut rep) },
                 "c06" => if replay { c06::replay(&a2, &mut rep, true) } else { c06::run(&a2, &mut rep, true) },
+                "c07" => if replay { c07::replay(&a2, &mut rep) } else { c07::run(&a2, &mut rep) },
+                "c13" => if replay { c13::replay(&a2, &mut rep) } else { c13::run(&a2, &mut rep) },
                 "c11" => if replay { c11::replay(&a2, &mut rep) } else { c11::run(&a2, &mut rep) },
                 "c19" => if replay { c19::replay(&a2, &mut rep) } else { c19::run(&a2, &mut rep) },
                 "c05" => if replay { c05::replay(&a2, &mut rep) } else { c05::run(&a2, &mut rep) },
